@@ -387,7 +387,17 @@ def sampleHistory : List Op :=
   List.replicate 9 .loop ++ [.rx [0x00, 0x7D, 0x55]] ++ List.replicate 40 .loop ++
   [.send 4 (List.replicate 300 0x7E), .send 5 [1], .send 9 [2]] ++ List.replicate 620 .loop
 
+/-- in-tree configuration with the host buffer -/
+def cfgHost : Cfg := { cfgTarget with cap := rxMsgSizeHost + allocSlack }
+
 example : CfgOk cfgTarget := ⟨by decide, by decide⟩
+example : CfgOk cfgHost := ⟨by decide, by decide⟩
+example : frame ⟨5, [0x7E, 0x00, 0x7D, 0x41]⟩ =
+    [0x7E, 0x05, 0x03, 0x7D, 0x5E, 0x7D, 0x20, 0x7D, 0x5D, 0x41, 0x7E] := by decide
+/-- the hypotheses of `rx_frame_delivers` / `overlong_bounded` at the target size -/
+example : 0 < cfgTarget.cap ∧ cfgTarget.reg 0x7E = false ∧ Rx.init.state = .waitStart ∧ Rx.init.len = 0 ∧
+    Transparent 4 ∧ cfgTarget.reg 4 = true ∧ 4 < cfgTarget.nh ∧
+    (List.replicate 300 0x00).length ≥ cfgTarget.cap ∧ [0x7E, 0x00].length < cfgTarget.cap := by decide +kernel
 example : opsOk cfgTarget nTxQueues Link.init sampleHistory := by decide +kernel
 /-- … and what `end_to_end_partial` then says is delivered: DLCI 5 first (already on the line), then
 the two DLCI 4 messages in order before DLCI 10; the over-long message and the one after it are lost -/
